@@ -315,6 +315,148 @@ def run_inplace(ctx):
     ctx.stats.exhaustive["in-place operator x state x operand-kind x palette"] = True
 
 
+# --------------------------------------------------------------------- in-place sequences
+SEQ_OPS = ["+", "-", "*", "/", "//", "%", "**"]
+seq_numbers = st.one_of(
+    st.sampled_from([0.1, 0.2, 0.3, 1.0, 1e16, -1e16, 1, 2, 3, 0.5, -1, 0, 7, 1e-3, 0.7, True]),
+    st.integers(-5, 5), st.floats(-4, 4, allow_nan=False).map(lambda v: round(v, 3)))
+seq_exponents = st.sampled_from([2, 0.5, -1, 3, 1])
+
+
+@st.composite
+def seq_cases(draw):
+    """a start state for d['a'] (plain value or one of several definition shapes) and 1-4 in-place statements"""
+    b = E.loc("d", ("i", "b"))
+    c = E.loc("d", ("i", "c"))
+
+    def op_and_number():
+        op = draw(st.sampled_from(SEQ_OPS))
+        return op, E.lit(draw(seq_exponents if op == "**" else seq_numbers))
+
+    shape = draw(st.sampled_from(["plain", "alias", "ref-op-lit", "ref-op-lit", "lit-op-ref", "ref-op-ref", "nested", "neg"]))
+    if shape == "plain":
+        init = None
+    elif shape == "alias":
+        init = b
+    elif shape == "ref-op-lit":
+        op, k = op_and_number()
+        init = ["bin", op, b, k]
+    elif shape == "lit-op-ref":
+        op = draw(st.sampled_from(SEQ_OPS[:-1]))
+        init = ["bin", op, E.lit(draw(seq_numbers)), b]
+    elif shape == "ref-op-ref":
+        init = ["bin", draw(st.sampled_from(SEQ_OPS[:-1])), b, c]
+    elif shape == "nested":
+        op1, k1 = op_and_number()
+        op2, k2 = op_and_number()
+        init = ["bin", op2, ["bin", op1, b, k1], k2]
+    else:
+        init = ["un", "-", b]
+    steps = []
+    for _ in range(draw(st.integers(1, 4))):
+        kind = draw(st.sampled_from(["number", "number", "number", "ref", "expr"]))
+        op, k = op_and_number()
+        if kind == "number":
+            operand = k
+        elif kind == "ref":
+            op = draw(st.sampled_from(SEQ_OPS[:-1]))
+            operand = c
+        else:
+            op = draw(st.sampled_from(SEQ_OPS[:-1]))
+            operand = ["bin", draw(st.sampled_from(["+", "*", "-"])), c, E.lit(draw(seq_numbers))]
+        steps.append([op, operand])
+    vals = {k: draw(seq_numbers) for k in ("a", "b", "c")}
+    later = {k: draw(seq_numbers) for k in ("b", "c")}
+    return {"kind": "inplace-seq", "init": init, "steps": steps, "values": vals, "later": later}
+
+
+def seq_body(ctx, case):
+    """`d['a'] op= operand` repeated: after every statement the value is what Python computes from the PREVIOUS
+    definition (or value) and the operand, and the definition is exactly  old-definition (op) operand - nothing
+    re-associated, folded or dropped; afterwards the definition follows its operands."""
+    init, steps = case["init"], case["steps"]
+    roots, refs, m = make_world(dict(case["values"]))
+    model = dict(case["values"])
+    mroots = {"d": model, "F": roots["F"]}
+    classes = ["inplace-seq", f"inplace-seq:start:{'plain' if init is None else init[0]}",
+               f"inplace-seq:{len(steps)}-statements"]
+    rep = {"start": E.render(init) if init else "plain value", "values": {k: E.show(v) for k, v in case["values"].items()},
+           "statements": [f"d['a'] {op}= {E.render(o)}" for op, o in steps]}
+    cur = init
+    if init is not None:
+        want = outcome(lambda: E.mirror(init, mroots))
+        real = outcome(lambda: refs["d"].__setitem__("a", E.build(init, refs)) or roots["d"]["a"])
+        if want[0] == "exc" or real[0] == "exc":
+            ctx.stats.case(rep, False, classes=["inplace-seq:start-raises"])
+            return None
+        model["a"] = want[1]
+    lit_lit = 0
+    for i, (op, operand) in enumerate(steps):
+        if cur is not None:
+            new = ["bin", op, cur, operand]
+        elif operand[0] == "lit":
+            new = None
+        else:
+            new = ["bin", op, E.lit(model["a"]), operand]
+        if new is None:
+            want = outcome(lambda: E.BINOPS[op](model["a"], E.dec(operand[1])))
+        else:
+            want = outcome(lambda: E.mirror(new, mroots))
+
+        def stmt():
+            tmp = refs["d"]["a"]
+            tmp = E.IOPS[op](tmp, E.build(operand, refs))
+            refs["d"]["a"] = tmp
+            return roots["d"]["a"]
+        real = outcome(stmt)
+        bad = compare(real, want)
+        if bad:
+            ctx.stats.case(rep, True, classes)
+            return Failure(f"C04:inplace-seq:{op}", dict(rep, statement=i, diff=bad[1]))
+        if want[0] == "exc":
+            # a statement that raises ends the case: what a failed assignment leaves behind is not this property's business
+            classes.append("inplace-seq:python-raises")
+            ctx.stats.case(rep, True, classes)
+            return None
+        model["a"] = want[1]
+        cur = new
+        got = refs["d"]["a"]._expr
+        if cur is None:
+            if got is not None:
+                ctx.stats.case(rep, True, classes)
+                return Failure(f"C04:inplace-seq:{op}", dict(rep, statement=i, diff=f"plain location got a definition {got!r}"))
+        else:
+            ub = E.unbuild(got) if got is not None else None
+            if ub is None or not E.ast_equal(ub, cur):
+                ctx.stats.case(rep, True, classes)
+                return Failure(f"C04:inplace-seq:{op}:definition",
+                               dict(rep, statement=i, diff=f"definition {E.render(ub) if ub else None} expected {E.render(cur)}"))
+    if cur is not None:
+        for k, nv in case["later"].items():
+            model[k] = nv
+            w2 = outcome(lambda: E.mirror(cur, mroots))
+            if w2[0] != "ok":
+                break
+
+            def assign():
+                refs["d"][k] = nv
+                return roots["d"]["a"]
+            bad = compare(outcome(assign), w2)
+            if bad:
+                ctx.stats.case(rep, True, classes)
+                return Failure("C04:inplace-seq:follow", dict(rep, changed=k, diff=bad[1]))
+        if len(steps) >= 2:
+            classes.append("inplace-seq:defined-and->=2-statements")
+        if any(o[0] == "lit" for _, o in steps[1:]) or (init is not None and init[0] == "bin" and init[3][0] == "lit"):
+            classes.append("inplace-seq:number-onto-definition-ending-in-a-number")
+    ctx.stats.case(rep, len(steps) >= 2 or cur is not None, classes)
+    return None
+
+
+def run_inplace_seq(ctx):
+    drive(ctx, seq_cases(), lambda c: seq_body(ctx, c), ctx.n(600, 6000), salt=5, label="C04 in-place sequences")
+
+
 # --------------------------------------------------------------------- trees
 class O:
     pass
@@ -522,6 +664,7 @@ def run_trees(ctx):
 def run(ctx):
     run_grid(ctx)
     run_inplace(ctx)
+    run_inplace_seq(ctx)
     run_trees(ctx)
 
 
@@ -538,6 +681,8 @@ def replay(ctx, case):
         f, rep = inplace_case(case["op"], case["defined"], case["operand"],
                               E.dec(case["va"]), E.dec(case["vb"]), E.dec(case["vk"]))
         return f
+    if k == "inplace-seq":
+        return seq_body(ctx, case)
     if k == "tree":
         return tree_body(ctx, case["ast"], dec_env(case["env"][0]), dec_env(case["env"][1]))
     raise ValueError(k)
